@@ -530,7 +530,10 @@ fn body_nodrop(_id: &str, c: &BigCase, tier: Tier) {
             }
         }
         sh.phase = Phase::WeakCall as u32;
-        trk(|| drop(weaks));
+        // element by element: the Vec's own buffer belongs to the harness
+        for (_, w) in weaks.drain(..) {
+            trk(|| drop(w));
+        }
         sh.phase = 0;
         if a != 0 {
             return;
